@@ -12,9 +12,9 @@ import (
 
 func init() {
 	register(&Property{
-		ID:  "C12",
-		Run: runC12,
-		Explain: "Most of this property is string semantics of ${…}/$$ and is NOT decided. Decided structural necessary conditions: (R1) termination shape – every loop and recursion reachable from the recursive expander inside confmap matches an accepted variant (constant-bounded driver loop followed by the too-many-expansions error; range loops; structural recursion on a component of a type-switched value; the URI search recursing only on the strict suffix after the first `}` under a contains-`}` guard; the `$`-run loop with a strictly descending index); anything else is undecided; (R2) a reference whose name contains `$` is refused before any provider is consulted; (R3) pipeline – each resolved value is escapeDollarSigns(expandValueRecursively(raw)) and converters run afterwards; the expander and the un-escaper cover the same container kinds; (R4) merge direction – sources are visited in slice order, the accumulator is the receiver and the freshly retrieved map the argument, and Merge hands the incoming map to the merge unfiltered; (R5) exact substitution – the URI search only gives up when the input is exhausted (an escaped candidate does not end the search), escaping is decided by the parity of the whole run of preceding `$`, the replacement is positional (no whole-string replace), and a successful provider substitution always reports `changed` (so cycles hit the expansion bound).",
+		ID:         "C12",
+		Run:        runC12,
+		Explain:    "Most of this property is string semantics of ${…}/$$ and is NOT decided. Decided structural necessary conditions: (R1) termination shape – every loop and recursion reachable from the recursive expander inside confmap matches an accepted variant (constant-bounded driver loop followed by the too-many-expansions error; range loops; structural recursion on a component of a type-switched value; the URI search recursing only on the strict suffix after the first `}` under a contains-`}` guard; the `$`-run loop with a strictly descending index); anything else is undecided; (R2) a reference whose name contains `$` is refused before any provider is consulted; (R3) pipeline – each resolved value is escapeDollarSigns(expandValueRecursively(raw)) and converters run afterwards; the expander and the un-escaper cover the same container kinds; (R4) merge direction – sources are visited in slice order, the accumulator is the receiver and the freshly retrieved map the argument, and Merge hands the incoming map to the merge unfiltered; (R5) exact substitution – the URI search only gives up when the input is exhausted (an escaped candidate does not end the search), escaping is decided by the parity of the whole run of preceding `$`, the replacement is positional (no whole-string replace), and a successful provider substitution always reports `changed` (so cycles hit the expansion bound).",
 		NotDecided: "Right-biased merge results, typed-vs-string substitution, `$$` escaping as string equalities, every statement about the produced strings/maps: value semantics outside this technique family.",
 		Assumes:    []string{"koanf Merge is a recursive right-biased map merge", "strings package semantics"},
 		Technique:  "static analysis: loop/recursion classification over the call graph (TERM), dominance gating, value provenance, type-switch coverage comparison",
@@ -189,7 +189,9 @@ func runC12(c *Ctx) {
 		}
 		c.Check(okPipe, "each resolved value is un-escaped after recursive expansion", p.Pos(resolve.Pos()), "cfg[k] = escapeDollarSigns(expandValueRecursively(raw)) on the success side", "values are stored without the expansion → un-escape pipeline (or un-escaped before expansion)")
 		// converters after
-		conv := calls(resolve, func(ci ssa.CallInstruction) bool { return ci.Common().IsInvoke() && ci.Common().Method.Name() == "Convert" })
+		conv := calls(resolve, func(ci ssa.CallInstruction) bool {
+			return ci.Common().IsInvoke() && ci.Common().Method.Name() == "Convert"
+		})
 		okConv := upd != nil && len(conv) == 1 && canReach(upd, conv[0], nil) && !canReach(conv[0], upd, nil)
 		c.Check(okConv, "converters run after expansion", p.Pos(resolve.Pos()), "expansion loop ≺ converters", "converters see unexpanded values")
 	} else {
@@ -197,7 +199,10 @@ func runC12(c *Ctx) {
 	}
 	if unesc != nil {
 		var expandValue *ssa.Function
-		for _, ci := range calls(driver, func(ci ssa.CallInstruction) bool { cf := staticCalleeFn(ci); return cf != nil && recvNamedOfFn(cf) == resT }) {
+		for _, ci := range calls(driver, func(ci ssa.CallInstruction) bool {
+			cf := staticCalleeFn(ci)
+			return cf != nil && recvNamedOfFn(cf) == resT
+		}) {
 			expandValue = staticCalleeFn(ci)
 		}
 		kinds := func(fn *ssa.Function) []string {
@@ -299,7 +304,9 @@ func runC12(c *Ctx) {
 		if fn.Parent() != nil || recvNamedOfFn(fn) != resT {
 			continue
 		}
-		if len(calls(fn, func(ci ssa.CallInstruction) bool { return staticCalleeFn(ci) == fn || (staticCalleeFn(ci) != nil && staticCalleeFn(ci).Parent() == fn) })) > 0 || len(callsTo(fn, funcObj(fn))) > 0 {
+		if len(calls(fn, func(ci ssa.CallInstruction) bool {
+			return staticCalleeFn(ci) == fn || (staticCalleeFn(ci) != nil && staticCalleeFn(ci).Parent() == fn)
+		})) > 0 || len(callsTo(fn, funcObj(fn))) > 0 {
 			if len(fn.Params) == 2 {
 				if b, ok := fn.Params[1].Type().Underlying().(*types.Basic); ok && b.Kind() == types.String {
 					// recursion through itself or through a closure
@@ -399,7 +406,9 @@ func runC12(c *Ctx) {
 	}
 	c.Check(okParity, "escaping is the parity of the whole run of preceding `$`", p.Pos(findURI.Pos()), "count of the run (descending scan) % 2", "escaping is not decided by counting the whole run of `$` before the reference (e.g. a fixed look-behind): runs of three or more `$` are misclassified")
 	// (c) positional substitution
-	repl := callsNamed(findAndExpand, func(f *types.Func) bool { return f.FullName() == "strings.ReplaceAll" || f.FullName() == "strings.Replace" })
+	repl := callsNamed(findAndExpand, func(f *types.Func) bool {
+		return f.FullName() == "strings.ReplaceAll" || f.FullName() == "strings.Replace"
+	})
 	c.Check(len(repl) == 0, "the found reference is substituted at its position", p.Pos(findAndExpand.Pos()), "no whole-string replace", "the provider's value is substituted with a whole-string replace: an escaped copy of the same reference elsewhere in the string is rewritten too")
 	// (d) changed=true after a successful substitution
 	okChanged := true
